@@ -98,6 +98,10 @@ func c11Case(w *core.Worker, i int) {
 		allowed[n] = true
 	}
 	judge := func(d string, run txRun, variant string, env []string) {
+		if run.res.Signal == 9 && !run.res.TimedOut {
+			w.Inconclusive(fmt.Sprintf("[%s] the process was ended by SIGKILL from outside the case (out of scope: C10)", variant))
+			return
+		}
 		if p.ReadOnly {
 			df := core.Diff(baseSnap, run.snap)
 			if !df.Empty() {
